@@ -17,29 +17,46 @@ from harness import core, diskprop, enc_vmx as E, tlaparse, tlc
 
 LEVEL = "model_checking"
 PASS = "correct horse ✓"
+# passphrases that differ from one another only slightly: phrase identities of the specification are mapped to distinct
+# members (no NUL characters: HMAC zero-pads short keys, so P and P + NUL are the same key by construction)
+VARIANTS = [PASS, PASS + "\n", PASS + "\r\n", PASS + "\r", PASS + " ", " " + PASS, PASS[:-1], PASS.upper(), PASS + "\t", "\n" + PASS,
+            PASS + "\n\n", PASS.replace("✓", "v"), "p", "P", "pässword", "password\n", "password"]
+SALTS = {n: [bytes([17 * (j + 1)] * n) for j in range(2)] for n in (8, 16, 32)}   # small pool: later unlocks in a process reuse salts
+KEYMAP = {"k1": "displayName", "k2": "guestOS"}
 
 
-def config_text(n, rng):
+def config_text(n, rng, plain=None):
     base = 'datafilekey = "abc"\nscsi0:0.fileName = "disk ü.vmdk"\n'
+    extra = "".join(f'{KEYMAP[k]} = "real {k} ✓"\n' for k, v in sorted((plain or {}).items()) if v != "absent")
+    if extra:
+        # the modelled entries must be present: short length classes hold only them
+        base = extra if n < 100 else base + extra
+        if n <= len(base.encode()) + 3:
+            return base
     if n <= len(base.encode()):
         return 'a="%s"\n' % ("x" * max(0, n - 5)) if n >= 5 else "a=1\n"[:max(n, 4)]
     return base + "# " + "p" * (n - len(base.encode()) - 3) + "\n"
 
 
-def make_bundle(pairs, data_tamper, rng, *, cipher=None, mac=None, kdf=None, cfg_len=None):
+def make_bundle(pairs, data_tamper, rng, *, cipher=None, mac=None, kdf=None, cfg_len=None, phrases=None, visible=None, plain=None, fixed_kdf_inputs=False):
+    """pairs[k]: {"sealed": phrase id, "tamper": site} (or legacy {"match": bool, ...}); phrases: id -> passphrase."""
+    phrases = phrases or {}
     cipher = cipher or rng.choice(list(E.KEYLEN))
     mac = mac or rng.choice(list(E.MACS))
     kdf = kdf or rng.choice(list(E.KDFS))
     data_cipher = rng.choice(list(E.KEYLEN))
     data_key = bytes(rng.randrange(256) for _ in range(E.KEYLEN[data_cipher]))
-    cfg = config_text(cfg_len if cfg_len is not None else rng.choice([4, 8, 15, 16, 17, 31, 32, 33, 100, 1000]), rng)
+    cfg = config_text(cfg_len if cfg_len is not None else rng.choice([4, 8, 15, 16, 17, 31, 32, 33, 100, 1000]), rng, plain)
     ptexts = []
     # every pair may use its own MAC algorithm; encryption.data is authenticated with the algorithm of the pair that unlocks
     pair_macs = [mac if (k == 0 or rng.random() < 0.4) else rng.choice(list(E.MACS)) for k in range(len(pairs))]
+    for p in pairs:
+        if "match" not in p:
+            p["match"] = phrases[p["sealed"]] == phrases["tried"]
     good = [k for k, p in enumerate(pairs) if p["match"] and p["tamper"] == "none"]
     data_mac = pair_macs[good[0]] if good else mac
     for k, p in enumerate(pairs):
-        phrase = PASS if p["match"] else f"other-{k}"
+        phrase = phrases[p["sealed"]] if "sealed" in p else (PASS if p["match"] else f"other-{k}")
         mac_k = pair_macs[k]
 
         def tam(b, site=p["tamper"], mac_k=mac_k):
@@ -50,8 +67,9 @@ def make_bundle(pairs, data_tamper, rng, *, cipher=None, mac=None, kdf=None, cfg
             elif site == "mac":
                 b[len(b) - 1 - rng.randrange(E.MACS[mac_k][1])] ^= 1 << rng.randrange(8)
 
-        ptexts.append(E.pair_text(phrase, data_key, cipher=cipher, mac=mac_k, kdf=kdf, rounds=rng.choice([1, 2, 1000, 10000]), escape_inner=rng.random() < 0.5,
-                                  salt=bytes(rng.randrange(256) for _ in range(rng.choice([8, 16, 32]))),
+        ptexts.append(E.pair_text(phrase, data_key, cipher=cipher, mac=mac_k, kdf=kdf, rounds=(1000 if fixed_kdf_inputs else rng.choice([1, 2, 1000, 10000])), escape_inner=rng.random() < 0.5,
+                                  salt=(SALTS[16][0] if fixed_kdf_inputs else rng.choice(SALTS[rng.choice([8, 16, 32])]) if rng.random() < 0.7
+                                        else bytes(rng.randrange(256) for _ in range(rng.choice([8, 16, 32])))),
                                   iv=bytes(rng.randrange(256) for _ in range(16)), data_cipher=data_cipher,
                                   tamper=tam if p["tamper"] != "none" else None))
     db = bytearray(E.blob(data_key, cfg.encode(), data_mac, bytes(rng.randrange(256) for _ in range(16))))
@@ -64,8 +82,14 @@ def make_bundle(pairs, data_tamper, rng, *, cipher=None, mac=None, kdf=None, cfg
         db[len(db) - n - 1 - rng.randrange(16)] ^= 1 << rng.randrange(8)
     elif data_tamper == "mac":
         db[len(db) - 1 - rng.randrange(n)] ^= 1 << rng.randrange(8)
-    visible = {".encoding": "UTF-8", "displayName": "Encrypted VM"}
-    text = E.vmx_text(visible, E.keysafe(ptexts), bytes(db), key_case=rng.choice(["asis", "other"]))
+    vis = {".encoding": "UTF-8"}
+    if visible is None:
+        vis["displayName"] = "Encrypted VM"
+    else:
+        for k, v in visible.items():
+            if v != "absent":
+                vis[KEYMAP[k]] = f"stale {k}"
+    text = E.vmx_text(vis, E.keysafe(ptexts), bytes(db), key_case=rng.choice(["asis", "other"]))
     return text, cfg, {"cipher": cipher, "mac": mac, "kdf": kdf, "cfg_len": len(cfg.encode())}
 
 
@@ -80,13 +104,13 @@ def parse_cfg(cfg):
     return out
 
 
-def unlock_and_compare(ctx, text, cfg, want_ok, attrs, det):
+def unlock_and_compare(ctx, text, cfg, want_ok, attrs, det, phrase=PASS):
     from dissect.hypervisor.descriptor.vmx import VMX
 
     v = VMX.parse(text)
     before = dict(v.attr)
     try:
-        v.unlock_with_phrase(PASS)
+        v.unlock_with_phrase(phrase)
         ok = True
     except Exception as e:  # noqa: BLE001
         ok = False
@@ -95,11 +119,12 @@ def unlock_and_compare(ctx, text, cfg, want_ok, attrs, det):
         want = dict(before)
         want.update(parse_cfg(cfg))
         if not ok or v.attr != want:
-            ctx.violation({**attrs, "fail": "roundtrip"}, {**det, "unlocked": ok, "missing": sorted(set(want) - set(v.attr))[:5]})
+            ctx.violation({**attrs, "fail": "roundtrip"}, {**det, "unlocked": ok, "missing": sorted(set(want) - set(v.attr))[:5],
+                                                           "differing": sorted(k for k in want if k in v.attr and v.attr[k] != want[k])[:5], "phrase": phrase})
             return False
     else:
         if ok:
-            ctx.violation({**attrs, "fail": "accepted-tampered"}, det)
+            ctx.violation({**attrs, "fail": "accepted-tampered"}, {**det, "phrase": phrase})
             return False
         if v.attr != before:
             ctx.violation({**attrs, "fail": "attr-changed-on-failure"}, det)
@@ -116,7 +141,7 @@ def run(ctx):
                 "altered in turn. Non-trivial = every case (distinct by state and algorithm triple).")
     ctx.assumptions = ["pycryptodome / hashlib / hmac primitives", "non-phrase locator kinds are refused at parse time (C12), so lists mix only phrase pairs"]
     diskprop.tlc_check(ctx, "VmxCrypto", "VmxCrypto.cfg", min_states=500, need_actions=("TryLocator", "Commit"))
-    rd = tlc.run("VmxCrypto", "VmxCrypto.cfg", dump=True)
+    rd = tlc.run("VmxCrypto", "VmxCrypto_img3.cfg" if thorough else "VmxCrypto_img.cfg", dump=True)
     sts = [s for s in tlaparse.iter_dump(rd.dump) if s["phase"] in ("committed", "failed")]
     tlc.cleanup(rd)
     if not thorough:
@@ -126,12 +151,29 @@ def run(ctx):
         r = random.Random(ctx.seed * 1500 + idx)
         for st in chunk:
             pairs = st["pairs"] if isinstance(st["pairs"], list) else [st["pairs"][k] for k in sorted(st["pairs"])]
-            text, cfg, alg = make_bundle(pairs, st["dataTamper"], r)
-            sub.case(key=repr((pairs, st["dataTamper"], alg["cipher"], alg["mac"], alg["kdf"])), nontrivial=True,
-                     sample={"pairs": pairs, "dataTamper": st["dataTamper"], "spec_phase": st["phase"], **alg} if idx == 0 and len(pairs) == 2 else None)
-            unlock_and_compare(sub, text, cfg, st["phase"] == "committed", {"mac": alg["mac"], "cipher": alg["cipher"], "kdf": alg["kdf"],
-                               "dataTamper": st["dataTamper"], "npairs": len(pairs)},
-                               {"pairs": pairs, "dataTamper": st["dataTamper"], **alg})
+            pairs = [dict(p) for p in pairs]
+            # phrase identities -> distinct concrete passphrases that differ only slightly
+            a, b = r.sample(VARIANTS, 2)
+            phrases = {1: a, 2: b}
+            phrases["tried"] = phrases[st["tried"]]
+            text, cfg, alg = make_bundle(pairs, st["dataTamper"], r, phrases=phrases, visible=st["visible"], plain=st["plain"])
+            sub.case(key=repr((pairs, st["tried"], st["dataTamper"], st["visible"], st["plain"], alg["cipher"], alg["mac"], alg["kdf"])), nontrivial=True,
+                     sample={"pairs": pairs, "dataTamper": st["dataTamper"], "spec_phase": st["phase"], "visible": st["visible"], "plain": st["plain"],
+                             "phrases": [a, b], **alg} if idx == 0 and len(pairs) == 2 else None)
+            ok = unlock_and_compare(sub, text, cfg, st["phase"] == "committed", {"mac": alg["mac"], "cipher": alg["cipher"], "kdf": alg["kdf"],
+                                    "dataTamper": st["dataTamper"], "npairs": len(pairs)},
+                                    {"pairs": pairs, "dataTamper": st["dataTamper"], "visible": st["visible"], "plain": st["plain"], "phrases": [a, b], **alg},
+                                    phrase=phrases["tried"])
+            # the specification's final dictionary, key by key
+            if ok and st["phase"] == "committed":
+                from dissect.hypervisor.descriptor.vmx import VMX
+                v = VMX.parse(text)
+                v.unlock_with_phrase(phrases["tried"])
+                for k, val in st["attr"].items():
+                    want = None if val == "absent" else (f"real {k} ✓" if val == "real" else f"stale {k}")
+                    if v.attr.get(KEYMAP[k].lower(), v.attr.get(KEYMAP[k])) != want:
+                        sub.violation({"fail": "dictionary", "key": k, "spec": val}, {"pairs": pairs, "visible": st["visible"], "plain": st["plain"],
+                                                                                   "got": v.attr.get(KEYMAP[k].lower(), v.attr.get(KEYMAP[k])), "want": want})
             if len(sub.violations) >= sub.max_violations:
                 return
 
@@ -141,7 +183,8 @@ def run(ctx):
         for mac in E.MACS:
             for kdf in E.KDFS:
                 for n in ([4, 15, 16, 17, 100] if not thorough else [4, 8, 15, 16, 17, 31, 32, 33, 100, 1000]):
-                    text, cfg, alg = make_bundle([{"match": True, "tamper": "none"}], "none", rng, cipher=cipher, mac=mac, kdf=kdf, cfg_len=n)
+                    text, cfg, alg = make_bundle([{"match": True, "tamper": "none"}], "none", rng, cipher=cipher, mac=mac, kdf=kdf, cfg_len=n,
+                                                  fixed_kdf_inputs=True)   # same passphrase / salt / rounds for every triple in this process
                     ctx.case(key=("triple", cipher, mac, kdf, n), nontrivial=True)
                     unlock_and_compare(ctx, text, cfg, True, {"mac": mac, "cipher": cipher, "kdf": kdf, "sub": "triples"}, alg)
                 text, cfg, alg = make_bundle([{"match": False, "tamper": "none"}], "none", rng, cipher=cipher, mac=mac, kdf=kdf)
